@@ -3,7 +3,7 @@ from __future__ import annotations
 
 from harness.c01_codec import wellformed
 from harness.common import LINE_TERMINATORS, VERSIONS, Reject, Violation, run, stub_repr
-from harness.stepkit import World
+from harness.stepkit import draw_id, World
 from spec import step_model as M
 
 PROPERTY = "C12"
@@ -41,8 +41,8 @@ def sym_send(inp, part):
     v, cmd = part["version"], part["cmd"]
     w = World(inp, v)
     lo, hi = part["idlo"], part["idhi"]
-    n = inp.int("n", lo, hi)
-    c = 255 if (hi < 255 and inp.bool("sys")) else inp.int("c", lo, hi)
+    n = draw_id(inp, "n", part, lo, hi)
+    c = 255 if (hi < 255 and inp.bool("sys")) else draw_id(inp, "c", part, lo, hi)
     ack = inp.int("ack", 0, 1)
     t = inp.int("t", part["tlo"], part["thi"])
     p = inp.str("p", part["maxlen"], exclude=LINE_TERMINATORS, no_trailing_ws=True)
